@@ -3,7 +3,7 @@
 use serde_json::Value;
 
 use crate::fw::{Batch, CheckSpec, Tier, drive};
-use crate::{Args, eng_disk, eng_store, eng_txm};
+use crate::{Args, eng_disk, eng_sched, eng_store, eng_txm};
 
 const REAL_TXM: &[&str] = &["grafeo_engine::transaction::TransactionManager (all of manager.rs)"];
 
@@ -12,6 +12,7 @@ pub fn run_check(id: &str, args: &Args) -> i32 {
         "C03" => c03(args),
         "C04" => c04(args),
         "C14" => c14(args),
+        "C20" => c20(args),
         "C05" => c_disk(args, "C05"),
         "C06" => c_disk(args, "C06"),
         _ => {
@@ -161,6 +162,41 @@ fn c_disk(args: &Args, prop: &'static str) -> i32 {
     )
 }
 
+fn c20(args: &Args) -> i32 {
+    let thorough = args.tier == Tier::Thorough;
+    let n_sched = if thorough { 120 } else { 40 };
+    let spec = CheckSpec {
+        property: "C20",
+        check_name: "C20",
+        level: "exploration",
+        engine: "SCHED",
+        rule: format!("scenarios of 2-3 simulated threads x 1-3 operations on shared entities (LpgStore node/edge/label/property/index/statistics operations; RdfStore insert/remove/find of the same triple; TransactionManager begin/write/commit/gc), each explored under {n_sched} schedules (random, PCT depth 2 and 3) with every parking_lot acquire and release a scheduling point; non-trivial = at least two threads mutate; distinct = distinct scenarios (schedules are counted separately as distinct_interleavings)"),
+        real: vec!["LpgStore", "RdfStore", "TransactionManager", "ChunkedAdjacency", "PropertyStorage", "parking_lot lock state (try paths)"],
+        stub: vec!["parking_lot blocking paths (replaced by the simulator's wait queue)", "OS threads (shuttle coroutines on one OS thread)"],
+        assumptions: vec![
+            "interleavings are explored at the granularity of lock acquire/release (the quantifier's 'critical sections inside each operation'); plain memory accesses between two lock operations are atomic in the simulation".into(),
+            "the sequential reference is the same code run single-threaded over every interleaving of whole operations".into(),
+            "mid-flight read-only observations are not required to be linearizable (the statement lists post-quiescence agreement)".into(),
+        ],
+        unchecked: vec!["lock-free internals of dashmap/crossbeam are not explored at their own atomic granularity".into()],
+    };
+    let batch = Batch { spec, tier: args.tier, seed: args.seed, runs: runs(args, 3_000, 150_000), workers: args.workers };
+    drive(
+        batch,
+        &|seed, i| {
+            let fam = match i % 5 {
+                0 => eng_sched::Family::LpgCore,
+                1 | 2 => eng_sched::Family::Lpg,
+                3 => eng_sched::Family::Rdf,
+                _ => eng_sched::Family::Txm,
+            };
+            eng_sched::run_one(seed, fam, "C20", n_sched)
+        },
+        Some(&eng_sched::minimise),
+        &mut |_| {},
+    )
+}
+
 pub fn replay_file(path: &str) -> i32 {
     let text = match std::fs::read_to_string(path) {
         Ok(t) => t,
@@ -183,6 +219,7 @@ pub fn replay_file(path: &str) -> i32 {
         Some("TXM") => eng_txm::replay(rep),
         Some("STORE") => eng_store::replay(rep),
         Some("DISK") => eng_disk::replay(rep),
+        Some("SCHED") => eng_sched::replay(rep, &prop),
         other => {
             eprintln!("harness error: unknown engine {other:?} in {path}");
             return 2;
